@@ -219,6 +219,9 @@ pub fn gen_numeral(src: &mut Src, o: &TextOpts) -> String {
             }
             let digits = 1 + src.below(25);
             let s = format!("{:.*e}", digits - 1, f);
+            if !s.parse::<f64>().map(|x| x.is_finite()).unwrap_or(false) {
+                return "1".to_string();
+            }
             if src.flip() {
                 respell_numeral(&s, src)
             } else {
